@@ -121,6 +121,17 @@ CHECKS["C15"] = dict(
    design="5/C15", technique="Coq proofs over a hand-written frontend model; constraint-list correspondence; enumeration of model sets",
    note="Trusted: Coq kernel; Model/Frontend.v. Known finding: SolverComposite keeps a concrete False only as a flag. Three composite merge defects repaired.")
 
+CHECKS["C26"] = dict(
+   text="Machine-checked proof (Coq): the decimal numeral codec through which bitvector values of any width travel between claripy and Z3 "
+        "(int_to_str_unlimited, str_to_int_unlimited, _abstract_bv_val) is the identity for every non-negative integer and every pair of chunk "
+        "sizes (C26_parse, C26_print, C26_roundtrip, C26_abstract_bv_val); every value returned by the enumeration loop and the optimum search "
+        "is feasible for every truthful solver oracle (C26_eval_feasible, C26_max_feasible, C26_min_feasible, corollaries of the C11 proofs). "
+        "Tie: the extracted codec runs next to the real functions with the module's chunk size patched. Z3's own numeral printing, model "
+        "completion, the cache layer, floats and strings are NOT modelled: returned values are tested for feasibility on solvers over widths "
+        "1..256 whose feasible sets are known exactly through the extracted evaluator, and in histories against enumeration.",
+   design="5/C26", technique="Coq round-trip proof of the numeral codec + feasibility corollaries; exact-reference tests of returned values",
+   note="Trusted: Coq kernel; Model/Numeral.v hand-written (digit lists); Z3 truthful. Floats and strings of this property are not covered.")
+
 REASONS = {}
 DEFAULT_REASON = "not claimed yet: its Coq model and correspondence harness are not built in this snapshot (see DESIGN.md section 10 for the order); no other technique is substituted"
 
